@@ -24,6 +24,14 @@ def main():
             print(f'TRANSLATOR FAILED {mod}: {msg}')
             common.write_if_changed(out, '(* translator failed: %s *)\nFail Definition translator_failed := 0.\nDefinition translator_failed : False := I.\n'
                                     % msg.replace('*)', '* )').replace('(*', '( *'))
+    # the LALR tables need PLY: run that translator with the repository's interpreter
+    import subprocess
+    py = os.environ.get('DD_PYTHON', '/venv/bin/python')
+    q = subprocess.run([py, os.path.join(os.path.dirname(os.path.abspath(__file__)), 'gen_lalr.py')],
+                       capture_output=True, text=True, timeout=300)
+    if q.returncode != 0:
+        rc = 1
+        print((q.stdout + q.stderr).strip()[-600:])
     return rc
 
 
